@@ -531,3 +531,24 @@ mod tests {
         // log::info!("content={}", content);
     }
 }
+
+#[cfg(feature = "verif-hooks")]
+impl Fdt {
+    pub(crate) fn verif_fill(&self, snap: &mut crate::verif::SenderSnapshot) {
+        snap.fdtid = self.fdtid;
+        snap.fdt_queue = self
+            .fdt_transfer_queue
+            .iter()
+            .map(|f| f.fdt_id.unwrap_or(u32::MAX))
+            .collect();
+        snap.fdt_current = self
+            .current_fdt_transfer
+            .as_ref()
+            .map(|f| (f.fdt_id.unwrap_or(u32::MAX), f.is_transferring()));
+        snap.files_queue = self.files_transfer_queue.iter().map(|f| f.toi).collect();
+        let mut files: Vec<crate::verif::SenderFileSnapshot> =
+            self.files.values().map(|f| f.verif_snapshot()).collect();
+        files.sort_by_key(|f| f.toi);
+        snap.files = files;
+    }
+}
